@@ -26,7 +26,7 @@ LEVEL_TEXT = ("Scenarios with continuous release, deaths by IBM age limit and by
 LEVEL_NOTE = ("Tolerance 1e-9 with float64 forcing files, 2e-6 relative (f4 output precision) with float32 forcing files because u += dU accumulates in a different order after a restart. An additional final "
               "record at the stop time in the restarted run and a different default reference time are documented behaviour and are not judged.")
 RULE = ("case = scenario; every completed file except the last is a restart point. Non-trivial restart point: particles are released and die after it; distinct by scenario parameters and file index.")
-MANDATORY = ["forcing_in_several_files", "restart_between_forcing_files", "restart_points", "records_compared", "newest_pids_dead_in_last_record", "newest_pids_dead_in_last_record_no_particle_variables", "new_release_after_restart", "death_after_restart", "left_grid", "duration_not_multiple_of_period", "scheme_EF", "scheme_RK2", "scheme_RK4",
+MANDATORY = ["forcing_frames_between_model_steps", "forcing_in_several_files", "restart_between_forcing_files", "restart_points", "records_compared", "newest_pids_dead_in_last_record", "newest_pids_dead_in_last_record_no_particle_variables", "new_release_after_restart", "death_after_restart", "left_grid", "duration_not_multiple_of_period", "scheme_EF", "scheme_RK2", "scheme_RK4",
              "particle_variable_compared", "file_names_compared"]
 ASSUMPTIONS = ["diffusion off (as the property states)", "sparse layout (warm start reads particle_count)"]
 TIMEOUT = {"quick": 1200, "thorough": 3500}
@@ -64,8 +64,13 @@ def build(case: dict[str, Any]):
             c = int(rng.integers(1, min(left, 3) + 1))
             nfiles.append(c)
             left -= c
-    world = dict(imax=imax, jmax=jmax, N=N, t0=C.T0, frames=[f * dt for f in fr], files=nfiles, store=store,
-                 vel=dict(kind="jet", u=sp * np.cos(ang), v=sp * np.sin(ang), shear=0.4, frame_amp=[float(x) for x in rng.uniform(0.6, 1.3, size=len(fr))],
+    offgrid = case["idx"] % 4 == 2 and not case.get("gap") and not case.get("newest_dead")
+    frame_secs = [f * dt for f in fr]
+    if offgrid:  # forcing interval not a multiple of dt: frames fall between model steps
+        frame_secs = [-dt + k * 1000 for k in range((ns + 2) * dt // 1000 + 3)]
+        nfiles = [len(frame_secs)] if len(nfiles) == 1 else [2] * (len(frame_secs) // 2) + ([len(frame_secs) % 2] if len(frame_secs) % 2 else [])
+    world = dict(imax=imax, jmax=jmax, N=N, t0=C.T0, frames=frame_secs, files=nfiles, store=store,
+                 vel=dict(kind="jet", u=sp * np.cos(ang), v=sp * np.sin(ang), shear=0.4, frame_amp=[float(x) for x in rng.uniform(0.6, 1.3, size=max(len(fr), 200))],
                           profile=[float(x) for x in rng.uniform(0.4, 1.0, size=N)]),
                  h=dict(kind="random", hmin=30.0, hmax=150.0, seed=case["idx"]), metric=dict(kind="uniform", dx=dx, dy=dx),
                  vert=dict(Vtransform=2, Vstretching=4, theta_s=3.0, theta_b=0.5, hc=10.0),
@@ -110,7 +115,7 @@ def build(case: dict[str, Any]):
                           default_values=dict(age=0.0, weight=1.0, temp=0.0)),
                ibm=dict(module=C.REC_IBM, age=True, lifetime=lifetime, weight_from="temp", log=False),
                output=dict(period=P * dt, numrec=numrec, instance=dict(pid="i4", X="f8", Y="f8", Z="f8", age="f8", weight="f8", temp="f8"), particle=dict(release_time="f8") if pvars else {}))
-    return dict(world=world, run=run), dict(P=P, numrec=numrec, ns=ns, dt=dt, scheme=scheme, store=store, freq=freq, lifetime=lifetime, pvars=pvars)
+    return dict(world=world, run=run), dict(P=P, numrec=numrec, ns=ns, dt=dt, scheme=scheme, store=store, freq=freq, lifetime=lifetime, pvars=pvars, offgrid=bool(offgrid))
 
 
 def decode_pvar(f, name):
@@ -140,6 +145,7 @@ def run_case(case: dict[str, Any], wd: Path) -> dict[str, Any]:
     sit[f"scheme_{par['scheme']}"] = 1
     sit["duration_not_multiple_of_period"] = int(par["ns"] % par["P"] != 0)
     sit["forcing_in_several_files"] = int(len(scn["world"]["files"]) > 1)
+    sit["forcing_frames_between_model_steps"] = int(par.get("offgrid", False))
     if not resA.ok:
         # the uninterrupted run is the reference; its own failures are C06/C07's subject
         return C.result([], sit, cnt, nontrivial=False, key=str(case["idx"]), sample=desc, void=True, note=f"uninterrupted run failed: {resA.exc}")
